@@ -427,3 +427,29 @@ Lemma shapes_inhabited :
   system_route (xoracle sel_world) (xinit sel_world) = Some (zfixed 18000) /\
   system_route (xoracle sel_world_bare) (xinit sel_world_bare) = None.
 Proof. vm_compute. repeat split; reflexivity. Qed.
+
+(** *** End to end: the answer of a conversion in terms of the explicit chain *)
+(* after TZ has been quiet for one second (any history before, any conversions / thread switches /
+   clock steps / touches meanwhile) the conversion answers from the first of [TZ route; system
+   zone route] that succeeds for the CURRENT value of the variable, else from UTC *)
+Lemma freshness_chain : forall zone HASH ARG ANS (O : oracle zone HASH ARG ANS) mono,
+  hash_injective O -> forall w0 pre quiet_ops local d,
+  Forall (time_ok mono) (pre ++ quiet_ops) -> Forall keeps_tz quiet_ops ->
+  NANOS_PER_SEC <= elapsed quiet_ops ->
+  let s := exec O mono (init_state w0) (pre ++ quiet_ops) in
+  snd (step O mono s (Convert local d)) =
+    Some (o_answer O (match first_some [route O (st_world s) (shape_of (env_of (w_tz (st_world s))));
+                                        system_route O (st_world s)] with
+                      | Some z => z | None => o_utc O end) local d).
+Proof.
+  intros zone HASH ARG ANS O mono Hinj w0 pre qo local d Ht Hk He s. subst s.
+  rewrite (freshness O mono Hinj w0 pre qo local d Ht Hk He), zone_at_chain. reflexivity.
+Qed.
+(* the first conversion of a thread: the same, at once *)
+Lemma new_thread_chain : forall zone HASH ARG ANS (O : oracle zone HASH ARG ANS) mono (s : @state zone HASH) local d,
+  st_cur s = None ->
+  snd (step O mono s (Convert local d)) =
+    Some (o_answer O (match first_some [route O (st_world s) (shape_of (env_of (w_tz (st_world s))));
+                                        system_route O (st_world s)] with
+                      | Some z => z | None => o_utc O end) local d).
+Proof. intros. rewrite (new_thread_fresh O mono s local d H), zone_at_chain. reflexivity. Qed.
